@@ -31,6 +31,7 @@ RND = z3.Function("rnd", sym.I, R)            # float(int) when it does not over
 INT_OF_STR = z3.Function("int_of_str", sym.ArrS, sym.I, sym.I)
 TWO53 = 2 ** 53
 ISINST = z3.Function("isinst", sym.ValS, sym.I, sym.B)
+TRUTHY = z3.Function("truthy_other", sym.ValS, sym.B)
 
 
 def tag_is(v, *names):
@@ -180,7 +181,7 @@ def install(w):
     def dyn_truth(it, v):
         t = v.t
         tg = sym.tag(t)
-        other = z3.Bool(it.namer.fresh("truthy"))
+        other = TRUTHY(t)   # __bool__/__len__ of any other object: a function of the value
         return z3.If(tg == T["none"], False,
                z3.If(tg == T["undefined"], False,
                z3.If(tg == T["bool"], sym.as_bool(t),
@@ -442,6 +443,21 @@ def install(w):
         return prev_getattr(it, v, attr, node)
     w.getattr_ext = getattr_ext
 
+    # ------------------------------------------------------------------ calling a dynamic value
+    prev_call = w.call_ext
+
+    def call_ext(it, f, args, kwargs, node):
+        if isinstance(f, VDyn):
+            use("calling a user supplied callable: returns any value or raises any Exception (A5)")
+            if not it.st.spec:
+                it.guard(sym.tag(f.t) == T["other"], TypeError, node, "SAFE-Call",
+                         text=f"call of a non-callable: {_src(node)}")
+            if it.choose(2, "dyn call outcome") == 1:
+                raise_any(it, node)
+            return it.fresh_dyn("ret")
+        return prev_call(it, f, args, kwargs, node)
+    w.call_ext = call_ext
+
     # ------------------------------------------------------------------ arithmetic on floats
     prev_binop = w.binop_ext
 
@@ -456,6 +472,14 @@ def install(w):
     # ------------------------------------------------------------------ spec functions
     def p(fn):
         return lambda it, *a: VBool(fn(it, *a))
+
+    def same_val(it, a, b):
+        """identity of two values (dyn vs constants handled like `is`)"""
+        if isinstance(a, VDyn) and isinstance(b, VDyn):
+            return a.t == b.t
+        if isinstance(a, VDyn) or isinstance(b, VDyn):
+            return dyn_identical(it, a, b, None)
+        return as_dyn_t(it, a) == as_dyn_t(it, b)
 
     def as_dyn_t(it, v):
         return w.to_dyn(it, v).t if not isinstance(v, VDyn) else v.t
@@ -477,7 +501,8 @@ def install(w):
         "bool_of": lambda it, v: VBool(sym.as_bool(as_dyn_t(it, v))),
         "float_int_of": lambda it, v: VInt(z3.ToInt(sym.as_fval(as_dyn_t(it, v)))),
         "num_eq": p(lambda it, a, b: num_eq(numeric(it, a), numeric(it, b))),
-        "same": p(lambda it, a, b: as_dyn_t(it, a) == as_dyn_t(it, b)),
+        "same": p(lambda it, a, b: same_val(it, a, b)),
+        "truthy": lambda it, v: VBool(it.truth(v)),
         "instance_of": p(lambda it, v, name: z3.And(
             sym.tag(as_dyn_t(it, v)) == T["other"],
             ISINST(as_dyn_t(it, v), sym.ATOMS.code(w.resolve_class(name.lit))))),
